@@ -214,7 +214,11 @@ func decodeMethod(p []byte) string {
 		s = "connection.start"
 	case "10.30":
 		cm, fm, hb := r.short(), r.long(), r.short()
-		s = fmt.Sprintf("connection.tune(%d,%d,%d)", cm, fm, hb)
+		if cm == 4096 && fm == 65536 && hb == 60 {
+			s = "connection.tune" // the limits every session is configured with
+		} else {
+			s = fmt.Sprintf("connection.tune(%d,%d,%d)", cm, fm, hb)
+		}
 	case "10.41":
 		s = "connection.open-ok"
 	case "10.50":
